@@ -454,6 +454,8 @@ val fold_left : ('a1 -> 'a2 -> 'a1) -> 'a2 list -> 'a1 -> 'a1
 
 val fold_right : ('a2 -> 'a1 -> 'a1) -> 'a1 -> 'a2 list -> 'a1
 
+val existsb : ('a1 -> bool) -> 'a1 list -> bool
+
 val find : ('a1 -> bool) -> 'a1 list -> 'a1 option
 
 val repeat : 'a1 -> nat -> 'a1 list
@@ -932,6 +934,8 @@ val grease_mask : n
 
 val grease_val : n
 
+val grease_same_bytes : bool
+
 val tag_sni : n
 
 val tag_max_fragment_length : n
@@ -1132,6 +1136,8 @@ val parse_tls_extension_oid_filters : tlsExtension p
 val parse_tls_extension_unknown : tlsExtension p
 
 val ext_content : ext_content_id -> n -> tlsExtension p
+
+val grease_test : n -> bool
 
 val dispatch_ext : (n * ext_content_id) list -> tlsExtension p
 
@@ -1965,6 +1971,44 @@ val gcase_kx : case list g
 val gcase_ct : case list g
 
 val families_kx : (string * case list g) list
+
+val iana_type : tlsExtension -> n
+
+val enc_ext_content : tlsExtension -> byte list
+
+val enc_ext : tlsExtension -> byte list
+
+val gs8 : slice g
+
+val gs16 : slice g
+
+val grease_vals : n list
+
+val known_types : n list
+
+val is_known_or_grease : n -> bool
+
+val gunknown_type : n g
+
+val gext0 : tlsExtension g
+
+val in_table : n -> n list -> bool
+
+val client_keys : n list
+
+val server_keys : n list
+
+val via : n list -> tlsExtension -> tlsExtension
+
+val tag_entry : tlsExtension -> string option
+
+val gcase_ext : case list g
+
+val gcase_ext_wrongtag : case list g
+
+val gcase_extlist : case list g
+
+val families_ext : (string * case list g) list
 
 val all_families : (string * case list g) list
 
